@@ -40,6 +40,33 @@ pub fn judge_bytes(c: &mut Collector, input: &[u8], origin: &str) -> Option<Boar
     c.journal(&format!("parse {origin} {}", hex(&input[..input.len().min(300)])));
     c.distinct(fnv(input));
     let r = catch_unwind(AssertUnwindSafe(|| parse_fen(input)));
+    // the `FromStr` entry (what clap uses for the CLI's board argument) must be the same parser
+    if let (Ok(text), Ok(by_bytes)) = (std::str::from_utf8(input), &r) {
+        c.count("fromstr-agreement-checks");
+        match catch_unwind(AssertUnwindSafe(|| text.parse::<Board>())) {
+            Err(_) => c.violation(
+                "parser-panicked",
+                "from_str",
+                format!("str::parse::<Board> panicked on \"{}\"", bytes_repr(input)),
+                obj().set("input_hex", hex(input)).set("origin", origin),
+            ),
+            Ok(by_str) => {
+                let same = match (by_bytes, &by_str) {
+                    (Ok(a), Ok(b)) => a == b && a.to_string() == b.to_string() && a.zobrist() == b.zobrist(),
+                    (Err(a), Err(b)) => format!("{a:?}") == format!("{b:?}"),
+                    _ => false,
+                };
+                if !same {
+                    c.violation(
+                        "fromstr-differs-from-parse_fen",
+                        "from_str",
+                        format!("\"{}\": parse_fen gives {:?}, str::parse gives {:?}", bytes_repr(input), by_bytes.as_ref().map(|b| b.to_string()), by_str.as_ref().map(|b| b.to_string())),
+                        obj().set("input_hex", hex(input)).set("origin", origin),
+                    );
+                }
+            }
+        }
+    }
     match r {
         Err(p) => {
             let msg = p.downcast_ref::<String>().cloned().or(p.downcast_ref::<&str>().map(|s| s.to_string())).unwrap_or_default();
